@@ -28,6 +28,13 @@ use crate::bytes_to_cstr;
 #[cfg(any(feature = "vhost-user-fs", feature = "virtiofs"))]
 use crate::transport::FsCacheReqHandler;
 
+/// Smallest buffer handed to `getdents64`: "." and ".." (24 bytes each) plus one record with a
+/// 255 byte name (19 byte header, name, terminator, padded to 8 bytes).
+const MIN_GETDENTS_BUF_SIZE: usize = 2 * 24 + 280;
+
+/// Smallest possible FUSE directory entry: 24 byte header plus a one byte name, padded to 8 bytes.
+const MIN_FUSE_DIRENT_SIZE: usize = 32;
+
 impl<S: BitmapSlice + Send + Sync> PassthroughFs<S> {
     fn open_inode(&self, inode: Inode, flags: i32) -> io::Result<File> {
         let data = self.inode_map.get(inode)?;
@@ -161,7 +168,19 @@ impl<S: BitmapSlice + Send + Sync> PassthroughFs<S> {
             return Ok(());
         }
 
-        let mut buf = Vec::<u8>::with_capacity(size as usize);
+        // No entry fits into such a reply; fail like `getdents64` does with a buffer that is too
+        // small instead of answering with a misleading end-of-directory.
+        if (size as usize) < MIN_FUSE_DIRENT_SIZE {
+            return Err(einval());
+        }
+
+        // "." and ".." are fetched from the host but never reported. A `getdents64` buffer of
+        // only `size` bytes may hold nothing but those two, and the resulting empty reply would
+        // falsely signal end-of-directory. Always leave room for them plus one entry with the
+        // longest possible name; entries that do not fit into the reply are read again on the
+        // next call.
+        let bufsize = std::cmp::max(size as usize, MIN_GETDENTS_BUF_SIZE);
+        let mut buf = Vec::<u8>::with_capacity(bufsize);
         let data = self.get_dirdata(handle, inode, libc::O_RDONLY)?;
 
         {
@@ -210,7 +229,7 @@ impl<S: BitmapSlice + Send + Sync> PassthroughFs<S> {
                         libc::SYS_getdents64,
                         dir.as_raw_fd(),
                         buf.as_mut_ptr() as *mut LinuxDirent64,
-                        size as libc::c_int,
+                        bufsize as libc::c_int,
                     )
                 };
                 if res < 0 {
@@ -239,7 +258,7 @@ impl<S: BitmapSlice + Send + Sync> PassthroughFs<S> {
                             libc::SYS_getdents64,
                             dir.as_raw_fd(),
                             buf.as_mut_ptr() as *mut LinuxDirent64,
-                            size as libc::c_int,
+                            bufsize as libc::c_int,
                         )
                     };
                     if res < 0 {
